@@ -7,34 +7,52 @@
 use libfuzzer_sys::fuzz_target;
 
 fuzz_target!(|data: &[u8]| {
-    if data.is_empty() {
-        return;
-    }
-    let (mode, rest) = (data[0], &data[1..]);
-    let body: Vec<u8> = if mode % 2 == 0 {
-        rest.to_vec()
-    } else {
-        match snap::raw::decompress_len(rest) {
-            // refuse absurd claimed sizes here: the allocation itself is not the subject
-            Ok(n) if n <= (1 << 20) => match snap::raw::Decoder::new().decompress_vec(rest) {
-                Ok(b) => b,
-                Err(_) => return,
-            },
-            _ => return,
+    guarded(std::panic::AssertUnwindSafe(|| {
+        if data.is_empty() {
+            return;
         }
-    };
-    if let Ok(batch) = cardinalsin::api::ingest::prometheus::verif_parse_remote_write(&body) {
-        // every row must carry a timestamp and a metric name, and exactly one typed value
-        let n = batch.num_rows();
-        for col in ["timestamp", "metric_name"] {
-            assert!(batch.column_by_name(col).map(|c| c.len() == n && c.null_count() == 0).unwrap_or(false), "column {} incomplete", col);
+        let (mode, rest) = (data[0], &data[1..]);
+        let body: Vec<u8> = if mode % 2 == 0 {
+            rest.to_vec()
+        } else {
+            match snap::raw::decompress_len(rest) {
+                // refuse absurd claimed sizes here: the allocation itself is not the subject
+                Ok(n) if n <= (1 << 20) => match snap::raw::Decoder::new().decompress_vec(rest) {
+                    Ok(b) => b,
+                    Err(_) => return,
+                },
+                _ => return,
+            }
+        };
+        if let Ok(batch) = cardinalsin::api::ingest::prometheus::verif_parse_remote_write(&body) {
+            // every row must carry a timestamp and a metric name, and exactly one typed value
+            let n = batch.num_rows();
+            for col in ["timestamp", "metric_name"] {
+                assert!(batch.column_by_name(col).map(|c| c.len() == n && c.null_count() == 0).unwrap_or(false), "column {} incomplete", col);
+            }
+            let f = batch.column_by_name("value_f64").unwrap();
+            let i = batch.column_by_name("value_i64").unwrap();
+            let u = batch.column_by_name("value_u64").unwrap();
+            for r in 0..n {
+                let set = (!f.is_null(r)) as u8 + (!i.is_null(r)) as u8 + (!u.is_null(r)) as u8;
+                assert_eq!(set, 1, "row {} has {} typed values", r, set);
+            }
         }
-        let f = batch.column_by_name("value_f64").unwrap();
-        let i = batch.column_by_name("value_i64").unwrap();
-        let u = batch.column_by_name("value_u64").unwrap();
-        for r in 0..n {
-            let set = (!f.is_null(r)) as u8 + (!i.is_null(r)) as u8 + (!u.is_null(r)) as u8;
-            assert_eq!(set, 1, "row {} has {} typed values", r, set);
-        }
-    }
+    }));
 });
+
+/// libfuzzer-sys installs a panic hook that aborts the process, which would turn panics that
+/// the code under test catches itself (e.g. around the Arrow IPC decoder) into crashes.
+/// Replace it by a recording hook; anything that *escapes* the target body aborts explicitly.
+fn guarded(f: impl FnOnce() + std::panic::UnwindSafe) {
+    static INIT: std::sync::Once = std::sync::Once::new();
+    INIT.call_once(|| {
+        std::panic::set_hook(Box::new(|info| {
+            eprintln!("panicked: {}", info);
+        }));
+    });
+    if std::panic::catch_unwind(f).is_err() {
+        eprintln!("VIOLATION: a panic escaped the receiver / the oracle failed");
+        std::process::abort();
+    }
+}
